@@ -69,11 +69,12 @@ EmptyWallet(accts) ==
 Height(s) == Len(s.chain)
 MinedIn(s, sl) == {i \in 1..Height(s) : sl \in s.chain[i].txs}
 Mined(s) == UNION {s.chain[i].txs : i \in 1..Height(s)}
-ChainOuts(s) == {s.chain[i].cb : i \in 1..Height(s)} \cup UNION {s.body[sl].outs : sl \in Mined(s)}
-ChainIns(s)  == UNION {s.body[sl].ins : sl \in Mined(s)}
+MinedKnown(s) == Mined(s) \cap DOMAIN s.body
+ChainOuts(s) == {s.chain[i].cb : i \in 1..Height(s)} \cup UNION {s.body[sl].outs : sl \in MinedKnown(s)}
+ChainIns(s)  == UNION {s.body[sl].ins : sl \in MinedKnown(s)}
 Utxo(s) == (ChainOuts(s) \ ChainIns(s)) \ {""}
 HeightOfOut(s, o) ==
-  LET hs == {i \in 1..Height(s) : s.chain[i].cb = o \/ \E sl \in s.chain[i].txs : o \in s.body[sl].outs}
+  LET hs == {i \in 1..Height(s) : s.chain[i].cb = o \/ \E sl \in s.chain[i].txs \cap DOMAIN s.body : o \in s.body[sl].outs}
   IN IF hs = {} THEN 0 ELSE CHOOSE i \in hs : \A j \in hs : i >= j
 \* a transaction is still valid on the current chain iff its inputs are unspent
 \* and mature; maturity is checked by the callers that mine
@@ -91,7 +92,7 @@ Nrep(s, sl) == IF sl \in DOMAIN s.nrep THEN s.nrep[sl] ELSE 0
 IsFull(k) == k \notin {"", "cb", "part", "rpart", "other"}
 \* kernel `k` is on chain within [lo, hi]
 KernelOnChain(s, k, lo, hi) ==
-  \E i \in 1..Height(s) : i >= lo /\ i <= hi /\ \E sl \in s.chain[i].txs : s.body[sl].kern = k
+  \E i \in 1..Height(s) : i >= lo /\ i <= hi /\ \E sl \in s.chain[i].txs : sl \in DOMAIN s.body /\ s.body[sl].kern = k
 
 \* ----------------------------------------------------------------- derived
 W(s, w) == s.w[w]
@@ -254,7 +255,7 @@ InitSendErr(s, w, a, nbumps) ==
 
 \* ---------------------------------------------------------------------
 \* LockOutputs — owner::tx_lock_outputs -> selection::lock_tx_context
-\*  args: [sl, stage ("S1"|"S2"|"I2"), ttl, hasproof]
+\*  args: [sl, stage ("S1"|"S2"|"I2"|"F" = the completed slate, late lock), ttl, hasproof, rep (stage F)]
 \*  Steps: B(lock inputs + change outputs + TxSent entry) . F(store tx)
 \*  Every input must still be Unspent/Unconfirmed, else the whole step is refused.
 \* ---------------------------------------------------------------------
@@ -277,7 +278,10 @@ LockBatch(s, w, a) ==
       \* S1 slate: the sender's own excess; S2 reply: it carries a transaction, so it is
       \* not repopulated and holds the recipient's excess only; I2: the stored full excess
       kern == IF cx.calc # "" /\ a.stage = "I2" THEN cx.calc
-              ELSE IF a.stage = "S1" THEN "part" ELSE "rpart"
+              ELSE IF a.stage = "S1" THEN "part"
+              ELSE IF a.stage = "F" THEN FullK(a.sl, a.rep)    \* the completed slate
+              ELSE IF a.stage = "X" THEN a.kern               \* whatever excess the given slate sums to
+              ELSE "rpart"
       e  == [NewTx(cx.acct, id, "TxSent") EXCEPT
                !.slate = a.sl, !.fee = cx.fee, !.ttl = a.ttl, !.kern = kern, !.minh = H,
                !.nin = Cardinality(cx.ins),
@@ -299,7 +303,7 @@ Lock(s, w, a) ==
   LET err == LockErr(s, w, a) IN
   IF err # "ok" THEN [steps |-> <<>>, res |-> err]
   ELSE LET s1 == LockBatch(s, w, a)
-           s2 == [s1 EXCEPT !.w[w].files = Put(@, a.sl, "part")]
+           s2 == [s1 EXCEPT !.w[w].files = Put(@, a.sl, IF a.stage = "F" THEN "final" ELSE "part")]
        IN [steps |-> <<s1, s2>>, res |-> "ok"]
 
 \* ---------------------------------------------------------------------
@@ -395,12 +399,13 @@ ProcessInvoice(s, w, a) ==
 
 \* ---------------------------------------------------------------------
 \* Finalize — foreign::finalize_tx / owner::finalize_tx.
-\*  args: [sl, stage ("S2"|"I2"|other), rep (which reply), ttl, valid (algebra: reply verifies),
+\*  args: [sl, stage ("S2"|"I2"|other), rep (which reply), rkern (excess class of the slate as
+\*         delivered: "rpart" for a genuine reply), ttl, valid (algebra: reply verifies),
 \*         proofok, hasproof, rout (counter-party output ids, world-wide),
 \*         lsel, lchg (late lock: selection made at finalize), post]
-\*  Steps S2:  [late: K x n . B(ctx) . B(lock) . F(part)] . F(final) . B(entry) . B(del ctx)
-\*  NOTE (transcribed): late-lock selection, context save and locking happen
-\*  BEFORE the reply is verified.
+\*  Steps S2:  [late: K x n . B(ctx) . B(lock) . F(part)] . verify . F(final) . B(entry) . B(del ctx)
+\*  NOTE (transcribed; known finding C07/ForeignOnlyAdds/finalize): late-lock selection,
+\*  context save and locking happen BEFORE the reply is verified.
 \* ---------------------------------------------------------------------
 FinalizeS2(s, w, a) ==
   LET wr  == s.w[w]
@@ -415,7 +420,7 @@ FinalizeS2(s, w, a) ==
                                       !.late = NoCtxLate]
              ELSE cx0
       sC  == RegSeq([sK EXCEPT !.w[w].ctxs = Put(@, a.sl, cx1)], w, ks, a.lchg, ActiveChild(s, w), 1)
-      lk  == Lock(sC, w, [sl |-> a.sl, stage |-> "S2", ttl |-> a.ttl, hasproof |-> a.hasproof])
+      lk  == Lock(sC, w, [sl |-> a.sl, stage |-> "X", kern |-> a.rkern, ttl |-> a.ttl, hasproof |-> a.hasproof])
       pre == IF late THEN bs \o <<sC>> \o lk.steps ELSE <<>>
       sL  == IF late /\ lk.res = "ok" THEN LastOf(lk.steps) ELSE IF late THEN sC ELSE s
       wl  == sL.w[w]
@@ -496,12 +501,14 @@ CancelBody(s, w, a) ==
 
 \* ---------------------------------------------------------------------
 \* BuildCoinbase — foreign::build_coinbase.  args: [fees, h, key ("" = none)]
-\*  NOTE (transcribed): a supplied key that names ANY existing record is reused.
+\*  A supplied key is reused only when it names a still-Unconfirmed coinbase
+\*  candidate (fix: C07); otherwise a fresh key is taken.
 \*  Steps: [K] . B(candidate)
 \* ---------------------------------------------------------------------
 BuildCoinbase(s, w, a) ==
   LET wr == s.w[w]
-      reuse == a.key # "" /\ a.key \in DOMAIN wr.outs
+      reuse == a.key # "" /\ a.key \in DOMAIN wr.outs /\ wr.outs[a.key].cb /\ wr.outs[a.key].st = "Unconfirmed"
+                        /\ ~wr.outs[a.key].m
       key == IF reuse THEN a.key ELSE NextChildKey(s, w)
       s1  == IF reuse THEN s ELSE BumpChild(s, w)
       o   == [v |-> Reward + a.fees, st |-> "Unconfirmed", h |-> a.h, lk |-> a.h + Maturity,
